@@ -184,3 +184,7 @@ def run(ctx: Context) -> None:  # noqa: F811
     ctx.rep.rule('C07.R8', 'the event / semaphore / lock primitives cannot lose a wake-up (shared with C08.R9)')
     backend.primitives(ctx, 'C07.R8')
     ctx.rep.explanation = (ctx.rep.explanation or '') + ' R8 (primitives, shared with C08.R9): set()/release() always reaches the one primitive every waiter waits on.'
+    from .c05 import _assignment_consumed_or_undone
+
+    ctx.rep.rule('C07.R9', 'an abandoned waiter never leaves behind a never-started connection holding a slot (shared with C05.R9)')
+    _assignment_consumed_or_undone(ctx, 'C07.R9')
